@@ -133,3 +133,8 @@ CHECKS.update({
     "C37": ("6/C37", "Breadth-first search over sequences (depth <=5 quick / <=6 thorough) of 19 llamactl configuration operations {add / switch / delete environment x 3 URLs incl. the built-in default; create profile from token (unnamed / keyed) and from OIDC login - the same names recur in every environment; select by name; select-any; update; delete profile} executed through EnvService / AuthService on a real ConfigManager SQLite file; states deduplicated on all table contents + the ghost set of profiles picked since the current environment became current; the invariant is evaluated in every reachable state (~10^4 states quick).",
             "Network clients (jwt / cryptography / truststore absent) are inert stand-ins; they are not reached. Fix recorded for the stale profile pointer after deleting the current environment.", BFS_TECH),
 })
+
+CHECKS.update({
+    "C33": ("6/C33", "Every subset of 3 valid deployment names x per deployment {secret absent, empty map, 27 YAML-tricky keys/values} x generation {absent, 0, 7} x password {none, ascii, unicode, single space, (200 chars, newline)}: create_backup_archive -> read_backup_archive with the same password compared field by field (names, CR dict, secret map, generation, manifest); every encrypted archive is also read with 4 different passwords incl. none, which must fail.",
+            "Runs in a worker under /root/miniconda/bin/python (cryptography is absent from /venv) with /venv's pure-python yaml; PBKDF2 iterations lowered to 1000 for breadth, 2 cases at the real 600000. If that interpreter is missing the check exits 2 (not runnable).", ENUM_TECH),
+})
